@@ -121,7 +121,10 @@ func (pl *lStatePool) New() *lua.LState {
 	}
 
 	getArgs := func(ls *lua.LState) (evalCmd string, args []string) {
-		evalCmd = ls.GetGlobal("EVAL_CMD").String()
+		// The kind of the running call (eval, evalro, evalna, ...) comes from
+		// the registry, which scripts cannot reach. The EVAL_CMD global is
+		// only informational: a script may assign to it.
+		evalCmd = ls.G.Registry.RawGetString(luaEvalCmdRegistryKey).String()
 
 		// Trying to work with unknown number of args.
 		// When we see empty arg we call it enough.
@@ -388,6 +391,10 @@ func ConvertToJSON(val lua.LValue) string {
 	return "Unsupported lua type: " + val.Type().String()
 }
 
+// luaEvalCmdRegistryKey is the registry slot holding the command of the script
+// call in progress (eval, evalro, evalna or their sha variants).
+const luaEvalCmdRegistryKey = "tile38.evalcmd"
+
 func luaSetRawGlobals(ls *lua.LState, tbl map[string]lua.LValue) {
 	gt := ls.Get(lua.GlobalsIndex).(*lua.LTable)
 	for key, val := range tbl {
@@ -475,6 +482,9 @@ func (s *Server) cmdEvalUnified(scriptIsSha bool, msg *Message) (res resp.Value,
 			"DEADLINE": luaDeadline,
 			"EVAL_CMD": lua.LString(msg.Command()),
 		})
+	luaState.G.Registry.RawSetString(luaEvalCmdRegistryKey,
+		lua.LString(msg.Command()))
+	defer luaState.G.Registry.RawSetString(luaEvalCmdRegistryKey, lua.LNil)
 	// clear them on every way out, including the early returns below, so
 	// that they never reach the next user of this pooled state.
 	defer luaSetRawGlobals(
